@@ -438,7 +438,9 @@ pub fn record_offsets(output: &str) {
         let mut from: Joints = std::array::from_fn(|i| if r.gen_bool(0.15) { lo(i) - 0.2 } else { initial[i] - r.gen_range(0.2..0.8) });
         let mut to: Joints = std::array::from_fn(|i| if r.gen_bool(0.15) { lim_to[i] + 0.2 } else { initial[i] + r.gen_range(0.2..0.8) });
         // the candidate at which a pair is brought together
-        let j = r.gen_range(0..6);
+        // (on a coupled robot the driven joint is tweaked in six cases of ten: the links behind it then do not move as
+        //  one rigid group, which is what the pair selection below looks at)
+        let j = if coupled && r.gen_bool(0.6) { 1 } else { r.gen_range(0..6) };
         // every third case: one other joint already stands at its 'from' or 'to' value (a step clipped at a limit): that
         // candidate is the initial vector itself, free and (if the initial vector is) legal
         if tries % 3 == 2 {
@@ -454,7 +456,8 @@ pub fn record_offsets(output: &str) {
         let moved = |x: usize| x == TOOL || (x < 6 && x >= j);
         let mixed: Vec<(usize, usize)> = rel.iter().cloned().filter(|p| moved(p.0) != moved(p.1)).collect();
         let both: Vec<(usize, usize)> = rel.iter().cloned().filter(|p| moved(p.0) && moved(p.1)).collect();
-        let (a, b) = if !mixed.is_empty() && r.gen_bool(0.7) { *pick(&mut r, &mixed) } else if !both.is_empty() { *pick(&mut r, &both) } else { *pick(&mut r, &rel) };
+        let p_mixed = if coupled && j == 1 { 0.3 } else { 0.7 };
+        let (a, b) = if !mixed.is_empty() && r.gen_bool(p_mixed) { *pick(&mut r, &mixed) } else if !both.is_empty() { *pick(&mut r, &both) } else { *pick(&mut r, &rel) };
         let defaults = [(0i64, 0i64), (40_000, 25_000)][tries % 2];
         let rmin = if a >= ENV0 || b >= ENV0 { defaults.0 } else { defaults.1 };
         let rm = rmin as f64 / 1e6;
